@@ -110,6 +110,14 @@ def plans(chk):
         combos = [(3, 2)] if chk.quick else [(2, 1), (3, 2), (4, 3), (5, 4)]
         for (n, w) in combos:
             out.append(mkplan(rng, 'queue_put', kind, n, w))
+    # a task fails while a sibling is still busy with its file
+    out.append(mkplan(rng, 'before_open', 'raise', 2, 2, file=0,
+                      slow={'file': 1, 'secs': 2}))
+    out.append(mkplan(rng, 'line', 'raise_ude', 3, 2, file=0,
+                      slow={'file': 2, 'secs': 2}))
+    # a single worker is still a separate process
+    out.append(mkplan(rng, 'line', 'exit', 3, 1))
+    out.append(mkplan(rng, 'before_sync', 'raise', 3, 1))
     # undecodable input and injected UnicodeDecodeError
     out.append(mkplan(rng, 'line', 'raise_ude', 3, 2))
     out.append(mkplan(rng, 'sync_inside_lock', 'raise_ude', 3, 2))
@@ -232,6 +240,8 @@ def short(plan):
     s = f"point={plan['point']} kind={plan['kind']}"
     if plan.get('slow_submit'):
         s += ' during-submit'
+    if plan.get('slow'):
+        s += ' sibling-busy'
     if plan.get('park'):
         s += ' sibling-in-lock'
     return s
@@ -267,6 +277,12 @@ def classify(chk, r):
                            json.dumps(o)[:300]})
         return found
     held = bool(o.get('store_lock_held'))
+    if o['run1'] == 'caller-killed':
+        # the task ran inside the calling process (no worker process at
+        # all): the injected abrupt exit would have been the caller's
+        viol(f"worker-exit-kills-caller workers={plan['workers']} "
+             f"files={plan['nfiles']} {tag}")
+        return found
     if o['run1'] == 'returned':
         viol(f'partial-results {tag}')
     elif o['run1'] == 'hang':
@@ -285,8 +301,13 @@ def classify(chk, r):
                  + tag)
         else:
             viol(f"unexpected-exception-class class={o['run1']} {tag}")
+    now = o.get('left1_now') or {}
     if has_left1:
         viol(f'leftovers-after-run1 {tag}')
+    elif now.get('active_children') or now.get('live_child_pids') or \
+            now.get('threads'):
+        # gone a moment later, but still there when run() raised
+        viol(f'leftovers-when-run1-ended {tag}')
     if o.get('collection_lock_held'):
         viol(f'collection-lock-held-after-run1 {tag}')
     run2_ok = (o.get('run2') == 'returned' and o.get('run2_equal'))
